@@ -568,9 +568,11 @@ def _postconditions(ctx, solver, cls, cfg, H, P_exp, tags, who="solve"):
                             (k, fk.shape, np.shape(F[k])), tags)
         pw = _fro(fk) ** 2
         if cls == "MMSE":
-            _close(ctx, "power_exceeded", max(0.0, pw / P_exp[k] - 1.0), 1e-6,
+            exc = max(0.0, pw / P_exp[k] - 1.0)
+            _close(ctx, "power_exceeded", exc, 1e-6,
                    "user %d |full_F|^2=%r P=%r" % (k, pw, P_exp[k]),
-                   dict(tags, snr_class=_snr_class(cfg, H, P_exp, k)))
+                   dict(tags, snr_class=_snr_class(cfg, H, P_exp, k),
+                        excess_class="ppm" if exc < 1e-3 else "gross"))
             if pw < P_exp[k] * (1 - 1e-6):
                 ctx.label("mmse_power_below_P")
         else:
@@ -899,7 +901,7 @@ def _read(ctx, solver, model, cls, what, tags, opi):
         got = solver.full_F
         exp = model.fullF()
         obs = [np.asarray(got[k]) for k in range(len(got))]
-        bad = None
+        bad, worst = None, 0.0
         if len(obs) != K:
             bad = "length %d" % len(obs)
         else:
@@ -910,16 +912,15 @@ def _read(ctx, solver, model, cls, what, tags, opi):
                     break
                 e = _fro(obs[k] - exp[k])
                 tol = 1e-10 * (_fro(exp[k]) + 1e-300)
-                if e <= tol:
-                    ctx.err("read_full_F", e / (_fro(exp[k]) + 1e-300),
-                            1e-10)
-                else:
+                worst = max(worst, e / (_fro(exp[k]) + 1e-300))
+                if not e <= tol:
                     bad = "user %d |full_F - F*sqrt(P)| = %.3e (|.|=%.3e)" % (
                         k, e, _fro(exp[k]))
                     break
         if bad:
             raise Violation("read_full_F", bad,
                             dict(t, **_stale_tags(model, "full_F", obs)))
+        ctx.err("read_full_F", worst, 1e-10)
         model.now_cached("full_F", [o.copy() for o in obs])
         return True
     if what in ("W", "W_H"):
